@@ -86,11 +86,17 @@ impl Property for C10 {
         Some(Duration::from_secs(60))
     }
     fn expected_labels() -> Vec<&'static str> {
-        vec!["closed", "open", "ok", "err", "le_Intersect", "le_TraceToMaxCurvature", "le_FitRadius", "le_ConstRadius", "le_ConvergeTangent", "le_RansacRadius", "orient_tmax", "orient_direction", "face_detect", "face_given", "chord<1", "chord>1", "equivariance"]
+        vec!["closed", "open", "ok", "err", "le_Intersect", "le_TraceToMaxCurvature", "le_FitRadius", "le_ConstRadius", "le_ConvergeTangent", "le_RansacRadius", "orient_tmax", "orient_direction", "face_detect", "face_given", "chord<1", "chord>1", "equivariance", "strut"]
     }
     fn strategy(_t: Tier) -> BoxedStrategy<Case> {
         let section = (logu(-0.3, 2.0), prop_oneof![3 => unif(0.0, 0.12), 1 => unif(0.12, 0.45)], unif(0.005, 0.03), unif(0.005, 0.03), unif(0.03, 0.12), unif(0.2, 0.95), 75usize..600, prop_oneof![Just(1.0), unif(1.0, 2.0)], iso2(100.0), any::<bool>(), any::<u16>(), prop_oneof![4 => Just(None), 1 => (unif(0.02, 0.05), any::<bool>()).prop_map(Some)])
             .prop_map(|(chord, camber, r_le, r_te, t_max, p, n_side, density, pose, reverse, start, open)| Section { chord, camber, r_le, r_te, t_max, p, n_side, density, pose, reverse, start, open });
+        // struts: straight camber, constant radius, full-round ends; the distance between the end-circle centres is a whole
+        // number k of half radii, so the camber walk (steps of a quarter radius from the middle) ends exactly on them
+        let strut_hi: f64 = std::env::var("VERIF_C10_STRUT_HI").ok().and_then(|v| v.parse().ok()).unwrap_or(2.0);
+        let strut = (logu(-0.3, strut_hi), 8usize..120, 75usize..400, iso2(100.0), any::<bool>(), any::<u16>())
+            .prop_map(|(chord, k, n_side, pose, reverse, start)| Section { chord, camber: 0.0, r_le: 2.0 / k as f64, r_te: 2.0 / k as f64, t_max: 0.0, p: 0.5, n_side, density: 1.0, pose, reverse, start, open: None });
+        let section = if std::env::var("VERIF_C10_STRUT_ONLY").is_ok() { strut.boxed() } else { prop_oneof![9 => section, 1 => strut].boxed() };
         (section, any::<bool>(), closed_method(), closed_method(), prop::option::of(any::<bool>()), any::<bool>(), iso2(50.0), prop_oneof![2 => Just(0.0), 1 => unif(-1.3, 1.3)])
             .prop_map(|(section, orient_by_direction, le, te, upper_dir, gap, t, dir_off)| {
                 let (mut le, mut te) = (le, te);
@@ -102,13 +108,27 @@ impl Property for C10 {
                         te = m
                     }
                 }
+                // a strut has no maximum thickness and no convex side: orientation by direction, upper side given
+                let strut = section.t_max == 0.0 && section.camber == 0.0;
+                let (orient_by_direction, upper_dir) = if strut { (true, Some(upper_dir.unwrap_or(true))) } else { (orient_by_direction, upper_dir) };
+                // the methods that look for growing curvature or converging tangents have nothing to find on a strut: the
+                // applicable ones are the constant-radius search and the straight projection
+                let applicable = |m: EdgeMethod| if strut && !matches!(m, EdgeMethod::ConstRadius | EdgeMethod::Intersect) { EdgeMethod::ConstRadius } else { m };
+                let (le, te) = (applicable(le), applicable(te));
                 // orientation by maximum thickness cannot be relied on when the leading end is cut away
                 Case { section, config: Config { orient_by_direction, le, te, upper_dir, dir_off }, t }
             })
             .boxed()
     }
     fn check(case: &Case) -> Verdict {
-        check(case)
+        let s = &case.section;
+        match check(case) {
+            // one recorded class: the edge point of a large strut is projected along two nearly coincident centres
+            Verdict::Fail(f) if s.t_max == 0.0 && s.camber == 0.0 && s.chord > 10.0 && (f.sig == "C10/equivariance/edges" || f.sig.starts_with("C10/edges/leading_edge_misplaced") || f.sig.starts_with("C10/edges/trailing_edge_misplaced")) => {
+                Verdict::Fail(Failure { sig: "C10/strut_chord_above_10/edge_point_unstable".to_string(), msg: format!("[{}] {}", f.sig, f.msg) })
+            }
+            v => v,
+        }
     }
 }
 
@@ -315,6 +335,7 @@ fn check(case: &Case) -> Verdict {
         Err(e) => return Verdict::fail("C10/section/rejected", format!("{e}")),
     };
     let tau = 1e-4 * s.chord;
+    cx.label_if(s.t_max == 0.0 && s.camber == 0.0, "strut");
     cx.label(if truth.closed { "closed" } else { "open" });
     cx.label(if s.chord < 1.0 { "chord<1" } else { "chord>1" });
     cx.label(method_label("le", case.config.le));
